@@ -949,6 +949,20 @@ def oracle_hints(case, impl):
 
 # ------------------------------------------------------------------------------------------------
 
+def regen_gen():
+    """regenerate coq/Gen/KoreConv.v from the CURRENT Python source (translators/kore_conv.py, fail closed)"""
+    sys.path.insert(0, os.path.join(C.VERIF, 'translators'))
+    import kore_conv
+    try:
+        text = kore_conv.generate(C.REPO)
+        C.write_if_changed(os.path.join(C.COQ, 'Gen', 'KoreConv.v'), text)
+        return True, ''
+    except SystemExit as e:
+        return False, str(e)
+    except Exception as e:  # noqa: BLE001
+        return False, f'kore_conv: {e!r}'
+
+
 def build():
     ok, log, exe = C.build_mlref('k', 'Extract/ExtractK.v', 'k_model', 'k_driver.ml', 'mlref_k',
                                  ['K/Kore.vo', 'K/Exec.vo'])
@@ -1091,7 +1105,12 @@ def run(tier, seed):
     n_long = 2 if tier == 'quick' else 12
     n_ses = 30 if tier == 'quick' else 1500
 
+    ok_tr, tr_msg = regen_gen()
     P = R.proof_stage()
+    if not ok_tr:
+        P['ok'] = False
+        P['log'] = 'translator failed closed: ' + tr_msg
+        P['discharged'] = 0      # the regenerated functions could not be produced: nothing is proved about the current source
     proof_broken = not P['ok']
     if proof_broken:
         R.notes.append('proof stage: ' + P['log'][-1500:])
@@ -1372,6 +1391,11 @@ def run(tier, seed):
 
 
 TRUSTED = [
+    'translators/kore_conv.py (Python ast -> coq/Gen/KoreConv.v, fail closed) and its vocabulary coq/K/GenPrims.v: the scope methods, '
+    '_convert_sort/_convert_pattern/convert_substitutions, add_axiom(s)/add_assumptions, collect_functional_axioms, '
+    'add_assumptions_for_rewrite_step, rewrite_event, from_proof_hints are tied BY TRANSLATION (K/GenKoreAgree.v: generated = model); '
+    'the primitives of GenPrims.v (notation definitions, Pattern.instantiate/==/match, get_symbol/get_sort/resolve_to_ksymbol, '
+    'load_axiom/dynamic_inst/add_proof_expression) and from_kore_definition/get_proof_hints remain tied differentially only',
     'pyk shim harness/shims/pyk (stand-in dataclasses for pyk.kore.syntax, empty pyk.kllvm): the real pyk is not installed; '
     'the implementation is exercised from parsed Kore objects / LLVM hint objects on (llvm_proof_hint.py binary parsing and the Kore text parser are out of scope)',
     'kore_runner.py builds kore.Definition / LLVMRewriteTrace objects from the request line and prints fully expanded patterns',
